@@ -72,8 +72,29 @@ def to_minimize(spec, sums):
     return v if sense == "min" else -v
 
 
+def two_way_sums(values):
+    """All achievable sums of one side of a 2-way partition, as a bitset (bit s set <=> some sub-collection sums to s)."""
+    bits = 1
+    for v in values:
+        bits |= bits << v
+    return bits
+
+
+def opt_two_way(values, spec):
+    """Optimum for 2 bins by subset-sum DP (any number of items): every objective is monotone in the difference."""
+    total = sum(values)
+    bits = two_way_sums(values)
+    half = total // 2
+    low = bits & ((1 << (half + 1)) - 1)
+    s = low.bit_length() - 1                 # the largest achievable sum <= total/2
+    vec = (s, total - s)
+    return objective_value(spec, vec)[0]
+
+
 def opt(values, k, spec):
     """Optimal value of the objective over all partitions of values into k bins."""
+    if k == 2 and len(values) > 10:
+        return opt_two_way(values, spec)
     vecs = sum_vectors(values, k)
     vals = [objective_value(spec, s)[0] for s in vecs]
     sense = objective_value(spec, next(iter(vecs)))[1]
@@ -335,6 +356,12 @@ def validate_oracles(which=("partition", "balanced", "packing", "cover", "water"
                             sense = objective_value(spec, [0])[1]
                             if opt(values, k, spec) != (min(vals) if sense == "min" else max(vals)):
                                 raise HarnessError(f"opt oracle wrong on {values},{k},{spec}")
+            for values in ([3, 1, 4, 1, 5, 9, 2, 6], [7, 7, 7, 1], [0, 0, 5], [10, 1, 1, 1, 1, 2], [13, 8, 5, 3, 2, 1, 1]):
+                for spec in ("minmax", "maxmin", "diff", "klargest:1", "ksmallest:1", "klargest:2", "ksmallest:3"):
+                    vals = [objective_value(spec, s)[0] for s in sum_vectors(values, 2)]
+                    sense = objective_value(spec, [0])[1]
+                    if opt_two_way(values, spec) != (min(vals) if sense == "min" else max(vals)):
+                        raise HarnessError(f"opt_two_way oracle wrong on {values},{spec}")
             # planted: k bins of equal sum
             if opt([5, 3, 2, 4, 4, 2, 7, 3], 3, "diff") != 0 or opt([5, 3, 2, 4, 4, 2, 7, 3], 3, "minmax") != 10:
                 raise HarnessError("opt oracle wrong on planted instance")
